@@ -81,8 +81,8 @@ def enumerate_entry_points():
     eps = {}
 
     def consider(q, fn, name, static=True):
-        if name.startswith("_"):
-            return
+        if name.startswith("_") or name.startswith("op_"):
+            return      # op_*: op code handlers of the engine, called with the engine's own stack preconditions
         try:
             sig = inspect.signature(fn)
         except (TypeError, ValueError):
@@ -483,6 +483,16 @@ def _call_spec(R: Recorder, stream: str, ep: str, args, kwargs=None, *, fn=None,
         f = fn or resolve(ep)
         a = [G.materialize(x) for x in args]
         kw = {k: G.materialize(v) for k, v in kwargs.items()}
+    except G.ArgBuild as e:
+        # an argument OBJECT (mutated) was answered by its own constructor: a library refusal means there is no
+        # call to make; a foreign class is a finding about that constructor
+        c = common.err_class(e.exc)
+        R.counts[(stream, ep, "argument-refused")] = R.counts.get((stream, ep, "argument-refused"), 0) + 1
+        if c.startswith("foreign:"):
+            R.fail(f"{e.name}:{exc_name(c)}", stream,
+                   f"{e.name} left through {exc_name(c)} ({str(e.exc)[:160]}) while building an argument of {ep}, on {G.short(witness)}",
+                   witness)
+        return "skipped", None
     except Exception as e:  # noqa: BLE001
         raise common.HarnessError(f"cannot build the call {ep} {G.short(witness)}: {type(e).__name__}: {e}") from e
     wfull = json.dumps(witness, default=str, sort_keys=True)
